@@ -6,7 +6,7 @@ from hypothesis import strategies as st
 from .. import gen, pkg
 from ..plain import Instance
 from ..runner import Result, Skip, Violation, case_hash
-from ..solver_common import (MODE, common_labels, leaf_move, prescribed_root_of, reference, set_costs_inplace,
+from ..solver_common import (MODE, maybe_alt_families, common_labels, leaf_move, prescribed_root_of, reference, set_costs_inplace,
                              set_leaf_species_inplace, solution_features, validate_output)
 
 ID = "C05"
@@ -131,6 +131,7 @@ def _second_costs(c, labelled):
 
 def check(case):
     group = case["_group"]
+    case = maybe_alt_families(case)
     inst = Instance(case)
     labels = common_labels(inst, labelled=group != "plain") + [f"group={group}"] + (["deep_chain"] if case.get("_chain") else [])
     proot = prescribed_root_of(inst) if group == "ordered" else None
